@@ -15,15 +15,16 @@ AllCombos == {ru \in Regs \X UnitNames : Available(ru[1], ru[2])}
 QuickCombos == {<<"default", "m">>, <<"default", "km/hr">>, <<"default", "degree">>, <<"default", "K">>, <<"default", "degC">>,
                 <<"default", "delta_degC">>, <<"default", "dB">>, <<"default", "dimensionless">>, <<"default", "erg">>,
                 <<"custom", "foo">>, <<"custom", "kpfoo">>, <<"custom", "ofoo">>, <<"custom", "afoo">>, <<"custom", "lfoo">>,
-                <<"custom", "mile">>, <<"custom", "degC">>, <<"customcgs", "foo">>, <<"customcgs", "erg">>}
+                <<"custom", "mile">>, <<"custom", "degC">>, <<"customcgs", "foo">>, <<"customcgs", "erg">>,
+                <<"customrm", "foo">>, <<"customrm", "degree">>, <<"customrm", "km/hr">>}
 Quick2Combos == {<<"default", "degree">>, <<"default", "degC">>, <<"default", "km/hr">>, <<"custom", "lfoo">>, <<"custom", "ofoo">>,
-                 <<"custom", "mile">>, <<"customcgs", "foo">>}
+                 <<"custom", "mile">>, <<"customcgs", "foo">>, <<"customrm", "degree">>}
 RepPaths == {"pickle4", "deepcopy", "dot_copy", "str_roundtrip", "json_registry", "savetxt2", "string_roundtrip", "unit_copy_deep"}
 BothOrders == {"of", "rf"}
 PlainPre == {<<"idlast", "warm">>}
 OtherPre == {<<"idfirst", "warm">>, <<"idfirst", "cold">>, <<"idlast", "cold">>}
 AllPre == PlainPre \cup OtherPre
-PreCombos == {<<"custom", "foo">>, <<"custom", "kpfoo">>, <<"custom", "mile">>, <<"customcgs", "km/hr">>, <<"default", "degC">>}
+PreCombos == {<<"customrm", "foo">>, <<"custom", "foo">>, <<"custom", "kpfoo">>, <<"custom", "mile">>, <<"customcgs", "km/hr">>, <<"default", "degC">>}
 PrePaths == {"pickle4", "pickle_nested", "copy_copy", "dot_copy", "deepcopy", "unit_copy_deep", "json_registry", "str_roundtrip"}
 
 Case == [tag |-> "CASE", cls |-> obj.cls, reg |-> obj.reg, unit |-> obj.unit, pre |-> obj.pre, memo |-> obj.memo, chain |-> chain, order |-> IF order = "" THEN "of" ELSE order,
